@@ -4,7 +4,7 @@
    a sample of every run (the in-kernel sample), so the extraction itself is checked. *)
 From Coq Require Import List Ascii String Bool Arith NArith ZArith.
 Require Import Show.
-Require V1 V5 V6 V3 V11 V13 A1 D3 M6 M6b GS R2 R2u PU ACC2 PATH AR AR2 AR3 ARu CL TS3 CX SchemaDefs Schema_gen H12 H13 S11 D16 DEB U20 U20d.
+Require V1 V5 V6 V3 V11 V13 A1 D3 M6 M6b GS R2 R2u PU ACC2 PATH AR AR2 AR3 ARu CL DATE C9 TS3 CX SchemaDefs Schema_gen H12 H13 S11 D16 DEB U20 U20d.
 Import ListNotations.
 Open Scope string_scope.
 Open Scope list_scope.
@@ -280,6 +280,14 @@ Definition run_changelog (op : string) (a : list str) : option str :=
   let g n := nth_arg n a in
   if op =? "cldates" then
     Some (show_list hx (map when_of (filter (fun l => CL.is_prefix (lit " -- ") l) (GS.lines_of (g 0)))))
+  else if op =? "tparse" then
+    (* the trailer date, computed by the model (DATE.v) - no oracle *)
+    Some (match DATE.parse_when (g 0) with Some (u, o) => C9.itoa_z u ++ lit "/" ++ C9.itoa_z o | None => lit "err" end)
+  else if op =? "clparse1" then
+    Some (match CL.parse V3.version str V11.parse_u
+                  (fun w => match DATE.parse_when w with Some (u, o) => Some (C9.itoa_z u ++ lit "/" ++ C9.itoa_z o) | None => None end) (g 0) with
+          | Some es => lit "ok " ++ show_list show_centry es
+          | None => lit "err" end)
   else if op =? "clparse" then
     Some (match CL.parse V3.version str V11.parse_u (date_oracle (table_of (tl a))) (g 0) with
           | Some es => lit "ok " ++ show_list show_centry es
